@@ -175,6 +175,27 @@ func runC02(c *core.Ctx, idx int) {
 							if pq, perr := ast.Parse(st.Store, text); perr == nil {
 								ids, count, err := st.Store.QueryIdsC(tx, pq)
 								cmp("QueryIdsC", ids, count, err, true)
+								// the parsed query, already run once, takes over the sort clause of another query and is run again
+								if len(sortSpec) > 0 && r.P(0.5) {
+									var other []qx.SortF
+									for _, f := range sortSpec {
+										f.Desc = !f.Desc
+										f.Dir = map[bool]string{true: "desc", false: "asc"}[f.Desc]
+										other = append(other, f)
+									}
+									oq := &qx.Query{Sort: other}
+									if opq, operr := ast.Parse(st.Store, oq.Stream().Canon()); operr == nil && pq.AdoptSortFields(opq) == nil {
+										aq := &qx.Query{Pred: pred, Sort: other, Skip: sk, Limit: lm.v, LimitNone: lm.none}
+										aIds, aCount := env.w.Page(qx.Things, match, aq)
+										ids, count, err := st.Store.QueryIdsC(tx, pq)
+										c.Eval()
+										c.Cover("path", "QueryIdsC after AdoptSortFields")
+										if err != nil || !sameIds(ids, aIds) || count != aCount {
+											c.Violationf("C02 wrong page (QueryIdsC after AdoptSortFields): "+gridKey, map[string]any{"query": text, "adopted_sort": sortText(other), "world": describeWorld(env.w)},
+												"query %q run once, then given the sort %q: engine %q count %d err=%v, oracle %q count %d", text, sortText(other), ids, count, err, aIds, aCount)
+										}
+									}
+								}
 							}
 							if pq, perr := ast.Parse(st.Store, text); perr == nil {
 								ids, count, err := st.Store.QueryWithCursorC(tx, st.Store.GetEntitiesBucket(tx).OpenCursor, pq)
